@@ -113,7 +113,7 @@ def quad_rule(inflow_at, n_pts):
     return [{"start": 0.0, "middle": 0.5, "end": 1.0}[inflow_at]], [1.0]
 
 
-QUADS = [("start", 1), ("middle", 1), ("end", 1)] + [("middle", n) for n in range(2, 11)]
+QUADS = [("start", 1), ("middle", 1), ("end", 1)] + [("middle", n) for n in range(2, 11)] + [("start", 3), ("end", 2)]
 
 # ---- closed-form survival functions -------------------------------------------------------------
 
